@@ -67,6 +67,9 @@ class Module:
         self.relpath = relpath
         self.src = src
         self.tree = ast.parse(src, filename=relpath)
+        if os.environ.get('FIMSA_NO_PRENORM') != '1':
+            from .prenorm import prenormalize
+            prenormalize(self.tree)
         self.imports = {}      # local name -> dotted target ('fim.x.y.Z' or 'fim.x.y')
         self.assigns = {}      # module-level NAME -> expr
         self.functions = {}    # name -> FunctionDef
